@@ -264,6 +264,11 @@ def variants(ctx, fmt):
         lst.append(dict(base, n=4, count=4, epoch=1, start=starts[1]))
         lst.append(dict(base, n=4, count=3, epoch=2, start=starts[2], archive=True))
         lst.append(dict(base, n=2, count=2, epoch=1, start=starts[1], archive=True, tail=3219))
+        # header-epoch boundaries: last day of epoch 1, first/last day of epoch 2, first day of epoch 3
+        lst.append(dict(base, n=2, count=2, epoch=1, start=(1992, 251, 1000)))
+        lst.append(dict(base, n=2, count=2, epoch=2, start=(1992, 252, 1000)))
+        lst.append(dict(base, n=2, count=2, epoch=2, start=(1994, 319, 86399000)))
+        lst.append(dict(base, n=2, count=2, epoch=3, start=(1994, 320, 0)))
     nb = ctx.n(16, 64)
     total_bits = None
     L = spec_layouts(ctx)
